@@ -284,7 +284,14 @@ class QsSim:
 
                     def shutdown(self):
                         sim._on_shutdown(self.client[0])
-                        super().shutdown()
+                        sim._lot = []
+                        try:
+                            super().shutdown()
+                        finally:
+                            lot, sim._lot = sim._lot, None
+                            fn = getattr(sim.observer, "on_shutdown_done", None)
+                            if fn is not None and lot and not sim.stopping:
+                                sim._notify(fn, self.client[0].name, lot)
 
                 def make_handler(**kw):
                     h = Stamped(**kw)
@@ -306,6 +313,25 @@ class QsSim:
         for name in ("report", "watchdog", "handletimeouts"):
             setattr(self.main, name, self._stamped_timer(name, getattr(self.main, name)))
         self.workq = self.main.db.workq
+        self._lot = None
+        real_push = getattr(self.workq, "pushjob", None)
+
+        def pushjob(job, *a, **kw):
+            # observation only: which jobs a connection's teardown pushes back, and where they land
+            r = real_push(job, *a, **kw)
+            if sim._lot is not None:
+                try:
+                    queued = any(x is job for x in sim.workq.channel2q.get(job.channel, ()))
+                except Exception:
+                    queued = None
+                sim._lot.append((getattr(job, "jobid", None), getattr(job, "serial", None), queued))
+            return r
+
+        if real_push is not None:
+            try:
+                self.workq.pushjob = pushjob
+            except AttributeError:
+                pass
         self.main_greenlet = gevent.spawn(self.main.run)
         self.timer_greenlets = []
         gevent.idle()  # Main.run proceeds to run_forever; the timer loops do their first round
